@@ -1,5 +1,6 @@
-\* the tree as it is, no deviation excused: Confined is EXPECTED to fail
-\* (the layouts join the name parts unchecked - the design admits escape)
+\* the layouts as they were BEFORE the repair (name parts joined unchecked),
+\* no deviation excused: Confined is EXPECTED to fail (fixed entries of
+\* known/C08.json); shows that the invariant can tell the difference
 SPECIFICATION Spec
 CONSTANTS
   MaxLen = 4
